@@ -219,6 +219,12 @@ RECIPES = {
         'synnum_a1': dict(kind='audio', timescale=48000, track_id=2, file_id=12, start_number=7,
                           durations=(96000, 96000, 96000, 96000, 96000)),
     },
+    # fragments numbered from 0
+    'synzero': {
+        'synzero_v1': dict(kind='video', timescale=1000, durations=(2000, 2000, 2000, 2000, 2000), file_id=19, start_number=0),
+        'synzero_a1': dict(kind='audio', timescale=48000, track_id=2, file_id=20, start_number=0,
+                           durations=(96000, 96000, 96000, 96000, 96000)),
+    },
     # encrypted variants: 16-byte IV with sub-samples (video), 8-byte IV without (audio), + clear twins
     'synenc': {
         'synenc_v1': dict(kind='video', timescale=1000, durations=(2000, 3000, 2000), file_id=7),
